@@ -71,6 +71,14 @@ def fam_wiring(seed, big):
             out.append({"id": "w-closed%d" % j, "class": "wiring-closed-std", "argv": vargv(), "stdin": a, "stdout": b,
                         "stderr": c, "closed_std": closed, "repeat": 1})
             j += 1
+    # a stream that is not configured and is CLOSED in the parent stays closed in the child, whatever else the launch has to
+    # prepare (a working directory, an environment, pipes for the other streams)
+    for closed, (a, b, c) in (([0], ("none", "pipe", "none")), ([0], ("none", "none", "none")), ([2], ("pipe", "pipe", "none")),
+                              ([1], ("pipe", "none", "pipe")), ([0, 1], ("none", "none", "pipe"))):
+        for extra in ({"cwd": hx(SP)}, {"cwd": hx("/"), "env": [[hx("K"), hx("v")]]}, {}):
+            out.append(dict({"id": "w-stayclosed%d" % j, "class": "wiring-closed-stays-closed", "argv": vargv(), "stdin": a,
+                             "stdout": b, "stderr": c, "closed_std": closed, "repeat": 1}, **extra))
+            j += 1
     # the parent's own stdout / stderr carries the close-on-exec flag, and a stream is merged onto it: the child gets both
     # streams, on that one open file
     for cx, (b, c) in (([1], ("none", "merge")), ([2], ("merge", "none")), ([1, 2], ("none", "merge")), ([1, 2], ("merge", "none"))):
